@@ -16,7 +16,7 @@ def templates(rnd):
     syms = [f"S{k}" for k in range(r)]
     d = rnd.choice(DT)
     num = ops.base(d) not in ("bool",)
-    k = rnd.choice(["ew2", "ew2", "ew2mixed", "ew2mixed", "bcast", "bcast", "reduce", "reduce", "layout", "getitem", "sort", "cumsum", "where", "program", "unique", "matmul", "concat", "allany", "roll", "take_lazyidx", "mknull", "mknull", "ewconst", "ewconst", "reshape2"])
+    k = rnd.choice(["ew2", "ew2", "ew2mixed", "ew2mixed", "bcast", "bcast", "reduce", "reduce", "layout", "getitem", "sort", "cumsum", "where", "program", "unique", "matmul", "concat", "allany", "roll", "take_lazyidx", "mknull", "mknull", "ewconst", "ewconst", "reshape2", "inplace_rank", "inplace_rank"])
     bc = {}   # symbol -> symbol it may broadcast against (fed 1 or equal)
     if k == "ew2":
         f = rnd.choice(["add", "subtract", "multiply", "maximum" if False else "less", "equal", "logical_and" if d == "bool" else "add"])
@@ -37,6 +37,20 @@ def templates(rnd):
         # a reshape that keeps the rank: (a, b) -> (-1, 2) / (2, -1) / (b, a); the run-time extents decide the result shape
         tgt = rnd.choice(["[-1, 2]", "[2, -1]", "[-1, 1]", "[1, -1]"])
         return f"out = ndx.reshape(x, {tgt})", {"x": ["R0", "R1"]}, {"x": d}, {"R0": ("oneof", [2, 4]), "R1": ("oneof", [1, 2, 3]), "nonempty": True}
+    if k == "inplace_rank":
+        # the rank of ONE lazy array object is read, then the object is re-pointed in place at a value of another rank
+        # (reshape(copy=False) / _set), then a negative axis is normalised against it: nothing about the old rank may stick
+        after = ["ndx.flip(y_, axis=-1)", "ndx.expand_dims(y_, axis=-1)", "ndx.roll(y_, 1, axis=-1)", "ndx.flip(y_, axis=-2)"]
+        if not d.startswith("n"):
+            after += ["ndx.concat([y_, y_], axis=-1)"]
+        if num and not d.startswith("n"):
+            after += ["ndx.sum(y_, axis=-1)", "ndx.cumulative_sum(y_, axis=-1)", "ndx.max(y_, axis=-1, keepdims=True)"]
+        read = rnd.choice(["n0_ = y_.ndim", "n0_ = len(y_.shape)", "r0_ = ndx.flip(y_, axis=-1)", "r0_ = ndx.expand_dims(y_, axis=-1)"])
+        if rnd.random() < 0.6:
+            a = rnd.choice([a_ for a_ in after if "axis=-2" not in a_] + ["ndx.flip(y_, axis=-2)"])
+            return f"y_ = x.copy(); {read}; y_ = ndx.reshape(y_, [-1, 2], copy=False); out = {a}", {"x": ["R0"]}, {"x": d}, {"R0": ("oneof", [2, 4, 6]), "nonempty": True}
+        a = rnd.choice([a_ for a_ in after if "axis=-2" not in a_])
+        return f"y_ = x.copy(); {read}; y_ = ndx.reshape(y_, [-1], copy=False); out = {a}", {"x": ["R0", "R1"]}, {"x": d}, {"R0": ("oneof", [1, 2, 3]), "R1": ("oneof", [1, 2]), "nonempty": True}
     if k == "ewconst":
         # a UNIFORM data-holding constant with several elements (all 1 / all 0 / all True / all False) against a placeholder
         # whose run-time extent is 1 or the constant's: the result always has the broadcast shape
